@@ -315,10 +315,14 @@ def run_case(rec, variant, image):
             fails.append(f"squared deviation over the fitted region grew: {d0!r} -> {d1!r}")
         # what the solver is handed IS that objective: the sum of squares of its residuals at the start equals the squared
         # deviation of the (promoted) candidate over the region, with the levels as documented -- no weights, no other levels
+        # (up to one constant factor: c0 / d0 = c1 / d1 -- a uniformly rescaled objective has the same minimiser)
         if proxy.calls and rec["width"] != "zero" and not (np.any(np.isnan(field.data))):
-            c0 = proxy.calls[0]["c0"]
-            if abs(c0 - d0) > 1e-9 * max(d0, 1e-300) + 1e-12:
-                fails.append(f"objective handed to the solver ({c0!r} at the start) is not the squared deviation over the fitted region ({d0!r})")
+            c0, c1 = proxy.calls[0]["c0"], proxy.calls[0]["c1"]
+            scale = float(np.sum((field.data[np.isfinite(field.data)] - np.nanmean(field.data)) ** 2)) + 1e-300
+            if d0 > 1e-9 * scale and d1 > 1e-9 * scale and c0 > 0 and c1 > 0:
+                if abs(c0 / d0 - c1 / d1) > 1e-6 * (c0 / d0):
+                    fails.append(f"objective handed to the solver ({c0!r} -> {c1!r}) is not proportional to the squared deviation over the "
+                                 f"fitted region with the documented levels ({d0!r} -> {d1!r})")
     # ---- fixed point
     if image == "fixedpoint" and req["levels"] in ("fixed", "adjust"):   # the supplied levels are the rendering levels
         ref = cand0 if isinstance(cand0, DiffuseDroplet) else DiffuseDroplet.from_droplet(cand0)
